@@ -67,6 +67,8 @@ type TGen struct {
 	// LoopVarsInNested allows {{this}}, {{@index}}, {{@first}}, {{@last}} in the body of a nested loop
 	LoopVarsInNested bool
 	MissingNested    bool // items may lack the list a nested loop iterates
+	VarRefs          bool // top-level variable values may mention other variables' placeholders
+	inItem           bool
 	Else     bool // generate {{else}} branches
 	Nested   bool // nested each
 	Newlines bool
@@ -179,6 +181,10 @@ func (g *TGen) scalar() any {
 	case 3:
 		return ""
 	case 4:
+		if g.VarRefs && !g.inItem {
+			// a top-level value that mentions another variable's placeholder: must come out verbatim
+			return "see {{" + tVars[g.R.Intn(len(tVars))] + "}} there"
+		}
 		if g.HostileV {
 			return g.R.Pick("{{name}}", "{{#if c1}}X{{/if}}", "{{this}}", "{{/each}}", "{{f1}}", "a{b}c", "{{else}}", "<&\">")
 		}
@@ -201,6 +207,8 @@ func (g *TGen) Data() *TData {
 			d.Conds[c] = g.R.Bool()
 		}
 	}
+	g.inItem = true
+	defer func() { g.inItem = false }()
 	for _, l := range tLists {
 		if g.R.Chance(0.85) {
 			n := g.R.Intn(4)
